@@ -476,10 +476,18 @@ fn builder_case(rec: &mut Recorder, r: &mut Rng, c: u64, seed: u64) {
     let maxv = (1u64 << (8 * code_len)) - 1;
     let dense = r.bool();
     let base = r.below(maxv / 2 + 1);
+    // a third of the builder cases map a run of consecutive codes to consecutive code points that
+    // crosses a boundary where the UTF-16 form is not consecutive (surrogate blocks, U+FFFF / U+10000,
+    // the surrogate gap) or a byte carry
+    let run_start: Option<u32> = if dense && r.chance(2, 3) { Some(*r.pick(&[0x1F3F8u32, 0x103F0, 0xFFF8, 0xD7F8, 0x00F8, 0x1FFF8, 0x10FFF0, 0x2F7F0, 0x0FF8])) } else { None };
     for k in 0..n {
         let v = if dense { (base + k as u64).min(maxv) } else { r.below(maxv + 1) };
         let code = be_bytes(v, code_len);
-        let s = if r.chance(1, 3) {
+        let s = if let Some(cp) = run_start.and_then(|st| char::from_u32(st + k as u32)) {
+            cp.to_string()
+        } else if run_start.is_some() {
+            "A".to_string()
+        } else if r.chance(1, 3) {
             char::from_u32(0x21 + r.below(0x2000) as u32).filter(|c| !c.is_control()).map(|c| c.to_string()).unwrap_or_else(|| "A".into())
         } else {
             let mut s = r.pick(UNI_POOL).to_string();
